@@ -30,6 +30,10 @@ func Convert(src interface{}, t reflect.Type) (interface{}, error) {
 	if t == nil || t == interfaceType {
 		return src, nil
 	}
+	if src == nil {
+		// nil has no type for GetConverter to look at; it converts like a decoded null
+		return reflect.Zero(t).Interface(), nil
+	}
 	t2 := reflect2.Type2(t)
 	p := t2.New()
 	if converter := GetConverter(reflect.TypeOf(src), t); converter != nil {
